@@ -47,6 +47,18 @@ def ovld_strategy(max_ops=30):
             if ms["methods"][0]["pos"] and ms["methods"][0]["pos"][0].get("posonly"):
                 m["pos"] = [dict(p, name=f"q{m['id']}_{j}") for j, p in enumerate(src["pos"])]
             methods.append(m)
+        # sometimes a method annotated type[...] is part of the pool: registering it switches the lookup of that
+        # position from type(x) to type[x] for EVERY call site, including already rewritten recurse / call_next sites
+        if draw(st.integers(0, 2)) == 0:
+            proto = draw(st.sampled_from([m for m in methods if m["pos"]] or methods))
+            if proto["pos"]:
+                tm = {"id": len(methods), "prio": 0, "kw": [], "sites": [],
+                      "pos": [dict(p, ann=(["type", ["cls", draw(st.sampled_from(knames))]] if j == 0 else ["obj"]), opt=False)
+                              for j, p in enumerate(proto["pos"])]}
+                if proto["pos"][0].get("posonly"):
+                    tm["pos"] = [dict(p, name=f"q{tm['id']}_{j}") for j, p in enumerate(tm["pos"])]
+                methods.append(tm)
+                corpus = corpus + [["clsobj", n] for n in knames] + [["clsobj", "int"]]
         pool = draw(G.calls_for(methods, corpus, ms["kwpool"], fitting=fit, n_calls=(2, 6)))
         n = draw(st.sampled_from([4, 8, 16, max_ops]))
         ops = [["reg", draw(st.integers(0, 9))]]
